@@ -11,6 +11,7 @@
 #define protected public
 #include <votca/csg/topology.h>
 #include "csg/src/libcsg/nblistgrid.cc"
+#include "csg/src/libcsg/exclusionlist.cc"
 #undef private
 #undef protected
 using namespace votca::csg;
@@ -27,6 +28,15 @@ H long h_neigh(void* gv, long idx, long* out, long cap) {
 }
 // raw grid object for the bit-precise index check: only the fields getCell reads
 H long h_cellindex(NBListGrid* g, const double* r) { return &g->getCell(Eigen::Vector3d(r[0], r[1], r[2])) - &g->grid_(0, 0, 0); }
+// exclusions: n beads (ids, molecule ids) excluded as one list in the given order; out[n*i+j] = IsExcluded(bead i, bead j)
+H void h_excl(long n, const long* ids, const long* mols, const long* order, long* out) {
+  std::vector<std::unique_ptr<Bead>> beads;
+  for (long i = 0; i < n; i++) { beads.emplace_back(new Bead(ids[i], "T", Bead::spherical, "A", 0, 1.0, 0.0)); beads.back()->setMoleculeId(mols[i]); }
+  ExclusionList ex;
+  std::list<Bead*> l; for (long k = 0; k < n; k++) l.push_back(beads[order[k]].get());
+  ex.ExcludeList(l);
+  for (long i = 0; i < n; i++) for (long j = 0; j < n; j++) out[n * i + j] = ex.IsExcluded(beads[i].get(), beads[j].get()) ? 1 : 0;
+}
 #ifdef VERIF_LAYOUT
 #include <cstdio>
 #include <cstddef>
